@@ -329,12 +329,24 @@ def _fill_gaps_with_rests(part):
                 # up to the next note, but not across a barline
                 end = min([target_start] + [b for b in barlines if b > position])
                 qdivs = int(part.quarter_duration_map(position))
-                value = None
-                for dur in (1, 2, 4, 8, 16, 32, 64, 128, 256):
-                    v = qdivs * 4 / dur
-                    if v == int(v) and v <= end - position:
-                        value = int(v)
-                        break
+                # the longest plain or triplet value that fits
+                candidates = sorted(
+                    set(
+                        int(v)
+                        for dur in (1, 2, 4, 8, 16, 32, 64, 128, 256)
+                        for v in (qdivs * 4 / dur, qdivs * 8 / (3 * dur))
+                        if v == int(v) and 0 < v <= end - position
+                    ),
+                    reverse=True,
+                )
+                value = next(
+                    (
+                        v
+                        for v in candidates
+                        if (estimate_symbolic_duration(v, qdivs) or {}).get("type")
+                    ),
+                    None,
+                )
                 if value is None:
                     warnings.warn("A gap in a voice cannot be written as rests.")
                     break
